@@ -4,7 +4,7 @@
    state it is in.  Plus: the boolean oracle predicates of spec/StructureSpec.v mean what they say. *)
 From V Require Import lib.Base lib.Utf8 gen.GenPolicy.
 From V Require Import model.Html model.HtmlUnescape model.Url model.UrlProc model.UrlSet model.TContext model.TSanitize
-     model.TSanitizers spec.HtmlSpec spec.HtmlTok spec.SanitizerSpec spec.StructureSpec
+     model.TSanitizers model.TEscapeText spec.HtmlSpec spec.HtmlTok spec.SanitizerSpec spec.StructureSpec
      proofs.HtmlFacts proofs.PolicyFacts proofs.SanitizerFacts proofs.HtmlTokFacts.
 Local Open Scope N_scope.
 
@@ -307,4 +307,40 @@ Proof.
   - destruct (Hr n t1 H) as (A & B0 & _). unfold t2. rewrite A, H. auto.
   - destruct (Hq t1 H) as (A & B0 & _). unfold t2. rewrite A, H. auto.
   - destruct (Hs t1 H) as (A & B0 & _). unfold t2. rewrite A, H. auto.
+Qed.
+
+(* ------------------------------------------------------------------ a first step of layer 2 *)
+
+Lemma align_policy_ok_ok : align_policy_ok = true. Proof. vm_compute. reflexivity. Qed.
+
+(* for every element and attribute name of the policy tables and both quote characters: after the
+   static text  <E A=q  engine context and tokenizer state agree *)
+Theorem align_open_attr_policy q e a :
+  q = 34 \/ q = 39 -> In e policy_elems -> In a policy_attrs ->
+  (exists c edited out,
+     escape_text false ctx0 (open_attr_text q e a) = EOk c edited out /\
+     c_state c = StAttr /\ c_delim c = (if q =? 34 then DDoubleQuote else DSingleQuote) /\
+     c_elem c = e /\ c_attr c = a) /\
+  (let t := tok_run (tok_init SData) (open_attr_text q e a) in
+   t_state t = (if q =? 34 then SAttrValueDQ else SAttrValueSQ) /\
+   g_is_end (t_tag t) = false /\ g_name (t_tag t) = e /\ g_aname (t_tag t) = a).
+Proof.
+  intros Hq He Ha.
+  assert (Hal : align_open_attr q e a = true).
+  { pose proof align_policy_ok_ok as H. unfold align_policy_ok in H.
+    rewrite forallb_forall in H.
+    assert (Hin : In q [34; 39]) by (destruct Hq as [->| ->]; simpl; auto).
+    specialize (H q Hin). rewrite forallb_forall in H. specialize (H e He).
+    rewrite forallb_forall in H. exact (H a Ha). }
+  unfold align_open_attr in Hal. apply andb_true_iff in Hal as [Hc Ht]. split.
+  - destruct (escape_text false ctx0 (open_attr_text q e a)) as [c edited out|]; [|discriminate Hc].
+    exists c, edited, out. split; [reflexivity|].
+    rewrite !andb_true_iff in Hc. destruct Hc as [[[Hs Hd] Hel] Hat].
+    apply bytes_eqb_eq in Hel, Hat. repeat split; try assumption.
+    + destruct (c_state c); try discriminate Hs. reflexivity.
+    + destruct (q =? 34); destruct (c_delim c); try discriminate Hd; reflexivity.
+  - cbv zeta in Ht. unfold html_tokenize in Ht. cbn [r_end] in Ht.
+    rewrite !andb_true_iff in Ht. destruct Ht as [[[Hs Hend] Hn] Han].
+    apply hstate_eqb_eq in Hs. apply negb_true_iff in Hend. apply bytes_eqb_eq in Hn, Han.
+    cbv zeta. auto.
 Qed.
